@@ -76,6 +76,13 @@ func (g *Group) AddGroup(shortDescription string, longDescription string, data i
 // AddOption adds a new option to this group.
 func (g *Group) AddOption(option *Option, data interface{}) {
 	option.value = reflect.ValueOf(data)
+
+	// data points to the variable that holds the option's value: like the
+	// field of a struct, the value has to be settable
+	if option.value.Kind() == reflect.Ptr && !option.value.IsNil() {
+		option.value = option.value.Elem()
+	}
+
 	option.group = g
 	g.options = append(g.options, option)
 }
